@@ -3,13 +3,13 @@
 # and file it under /verif/seeded/<ID>-<i>/ with a meta.json that records what was run and who caught it.
 id="$1"; i="$2"; out=/verif/seeded/$id-$i; sd=/tmp/wt/$id/SEEDED/$i
 mkdir -p $out
-v=$(/verif/tools/verify_seed.sh $id $i 2>&1)
+# first filing: copy the sub-agent's artefacts; afterwards the filed copy is the source
+if [ -d $sd ]; then cp $sd/patch.diff $out/patch.diff; cp $sd/*.rs $out/ 2>/dev/null; cp $sd/notes.md $out/notes.md 2>/dev/null; fi
+sd=$out
+v=$(/verif/tools/verify_seed.sh $id-$i 2>&1)
 echo "$v" | cut -c1-200
 r=$(/verif/tools/mutant.sh $id-$i $sd/patch.diff all 2>&1)
 echo "$r" | grep -E "rc=1|rc=2|caught|^  \[" | cut -c1-260
-cp $sd/patch.diff $out/patch.diff
-cp $sd/*.rs $out/ 2>/dev/null
-cp $sd/notes.md $out/notes.md 2>/dev/null
 python3 - "$id" "$i" "$out" <<PY
 import sys, json, re
 id_, i, out = sys.argv[1:4]
@@ -33,7 +33,7 @@ meta = {
      "existing_suite_passes_with_change": suite_ok,
      "demo_with_change": demo_with.group(1).strip() if demo_with else None,
      "demo_without_change": demo_without.group(1).strip() if demo_without else None,
-     "commands": ["tools/verify_seed.sh %s %s  (git apply; cargo test --workspace --no-fail-fast --offline; cargo test --test seeded_demo; revert)" % (id_, i),
+     "commands": ["tools/verify_seed.sh %s-%s  (scratch worktree; git apply; cargo test --workspace --no-fail-fast --offline; cargo test --test seeded_demo; revert)" % (id_, i),
                   "tools/mutant.sh %s-%s patch.diff all  (scratch copy of /repo + patch, harness built with CACHED_SRC, every check's quick tier)" % (id_, i)],
   },
   "caught_by_quick_checks": caught_by,
